@@ -577,6 +577,10 @@ func (s *Lexer) getNextToken() (*Token, error) {
 	case SSTRING_SINGLE:
 		fallthrough
 	case SSTRING_DOUBLE:
+		fallthrough
+	case SSTRING_S_ESCAPE:
+		fallthrough
+	case SSTRING_D_ESCAPE:
 		unendingString = true
 		token.TokenType = ERROR
 	case SSTRING_END:
@@ -714,6 +718,10 @@ func (s *Lexer) getNextToken() (*Token, error) {
 		token.TokenType = NEQUAL
 	case SCOLON:
 		token.TokenType = ERROR
+	case SEXCL:
+		token.TokenType = ERROR
+	case SSTART:
+		token.TokenType = ERROR
 	case SBLOCKCOMMENT:
 		fallthrough
 	case SBLOCKCOMMENTSTARTEND:
@@ -722,6 +730,8 @@ func (s *Lexer) getNextToken() (*Token, error) {
 		unendingBlockComment = true
 		token.TokenType = ERROR
 	case SBLOCKCOMMENTFINAL:
+		fallthrough
+	case SCOMMENTSTART:
 		fallthrough
 	case SCOMMENT:
 		token.TokenType = COMMENT
